@@ -121,11 +121,17 @@ def gen_nodelist(rng, tier):
     lines = []
     keys = [rand_bytes(rng, rng.randrange(0, 4)) for _ in range(rng.choice((1, 2, 3, 5)))]
     nid = 0
+    keyof = {}
     for _ in range(rng.randrange(3, 40)):
         r = rng.random()
-        if r < 0.5:
+        if r < 0.12 and keyof:
+            # add a node again (maybe one that was removed meanwhile; if it is still in the list: bad-op on both sides)
+            i = rng.choice(sorted(keyof))
+            lines.append('add %d %s' % (i, hx(keyof[i])))
+        elif r < 0.5:
             nid += 1
-            lines.append('add %d %s' % (nid, hx(rng.choice(keys))))
+            keyof[nid] = rng.choice(keys)
+            lines.append('add %d %s' % (nid, hx(keyof[nid])))
         elif r < 0.8:
             k = rng.choice(keys) if rng.random() < 0.9 else rand_bytes(rng, 2)
             lines.append('remove ' + hx(k))
@@ -1178,6 +1184,39 @@ def gen_backup_stress(rng, tier):
     sim.lines.append('scan 1')
     sim.lines.append('count 1')
     sim.lines.append('close 1')
+    sim.lines.append('gcwait')
+    sim.lines.append('shutdown')
+    return sim.lines
+
+
+
+def gen_store_fault(rng, tier):
+    """a backup that cannot create its shard files: StoreToDisk fails and must have released exactly the one
+    reference it was given (the caller's other handles stay valid and the collector stays in order)"""
+    sim = MvccSim(rng, tier)
+    if rng.random() < 0.4:
+        sim.lines[0] += ' delta=1'
+    for _ in range(rng.randrange(1, 12)):
+        sim.lines.append('put %d %d %d' % (sim.w(), sim.key(), rng.randrange(3) if sim.kv else 0))
+    sim.lines.append('snap')
+    nsn = 1
+    if rng.random() < 0.5:
+        sim.lines.append('del %d %d' % (sim.w(), sim.key()))
+        sim.lines.append('snap')
+        nsn = 2
+    s = rng.randrange(nsn) + 1
+    extra = rng.choice((1, 1, 2))
+    for _ in range(extra):
+        sim.lines.append('open %d' % s)
+    sim.lines.append('store %d conc=%d failopen=1' % (s, rng.choice((1, 2))))
+    sim.lines.append('open %d' % s)          # still open for the caller: true
+    sim.lines.append('scan %d' % s)
+    for _ in range(extra + 1):
+        sim.lines.append('close %d' % s)
+    sim.lines.append('open %d' % s)          # now fully released: false
+    for i in range(1, nsn + 1):
+        if i != s:
+            sim.lines.append('close %d' % i)
     sim.lines.append('gcwait')
     sim.lines.append('shutdown')
     return sim.lines
